@@ -181,6 +181,127 @@ def _returns_mixed_param(ctx, g):
     return None
 
 
+def norm_src_(n):
+    from ..model import norm_src
+    return norm_src(n)
+
+
+def handmade_memoisers(ctx):
+    """Package functions that wrap a callable in a value-keyed dict memo:
+    `def M(func): memo = {}; def w(*vals): try: return memo[vals] except
+    KeyError: memo[vals] = r = func(*vals) ...; return w`.  Returns
+    {M.fq: (M, wrapper, index of the wrapped-callable parameter)}; only memos
+    keyed by the raw arguments (no type() in the key) count."""
+    from ..model import own_nodes, norm_src
+    out = {}
+    for m in ctx.project.functions.values():
+        if m.is_lambda or not m.nested or not m.params:
+            continue
+        rets = {n.value.id for n in own_nodes(m) if isinstance(n, ast.Return)
+                and isinstance(n.value, ast.Name)}
+        for w in m.nested.values():
+            if w.name not in rets:
+                continue
+            keyv = w.vararg
+            if keyv is None:
+                continue
+            memo_names = set()
+            for n in ast.walk(w.node):
+                if isinstance(n, ast.Subscript) and isinstance(
+                        n.value, ast.Name) and isinstance(
+                        n.slice, ast.Name) and n.slice.id == keyv:
+                    memo_names.add(n.value.id)
+            memo_names = {d for d in memo_names if d not in w.all_params}
+            stores = any(isinstance(n, ast.Subscript) and isinstance(
+                n.ctx, ast.Store) and isinstance(n.value, ast.Name) and
+                n.value.id in memo_names for n in ast.walk(w.node))
+            if not (memo_names and stores):
+                continue
+            # which parameter of M does the wrapper call with the key?
+            for i, prm in enumerate(m.params):
+                if any(isinstance(n, ast.Call) and isinstance(
+                        n.func, ast.Name) and n.func.id == prm and any(
+                        isinstance(a, ast.Starred) and isinstance(
+                            a.value, ast.Name) and a.value.id == keyv
+                        for a in n.args) for n in ast.walk(w.node)):
+                    out[m.fq] = (m, w, i)
+    return out
+
+
+def handmade_memo_hazards(ctx):
+    """[(site function, call node, memoised function, registration or None,
+    evidence)]: a hand-written value-keyed memo applied to a function whose
+    result depends on the kind (logical vs number) of an argument."""
+    from ..model import own_nodes
+    from ..util import bound_arg
+    from .c07 import _funcs_of
+    memoisers = handmade_memoisers(ctx)
+    out = []
+    if not memoisers:
+        return out
+    for f in ctx.project.functions.values():
+        for n in own_nodes(f):
+            if not (isinstance(n, ast.Call) and isinstance(
+                    n.func, (ast.Name, ast.Attribute))):
+                continue
+            r = ctx.cg.resolve_name_expr(f, n.func)
+            if not (r and r[0] == 'func' and r[1].fq in memoisers):
+                continue
+            m, w, idx = memoisers[r[1].fq]
+            a = bound_arg(ctx, f, n, idx)
+            if not isinstance(a, (ast.Name, ast.Attribute)):
+                continue
+            rg = ctx.cg.resolve_name_expr(f, a)
+            if not (rg and rg[0] in ('func', 'nested')):
+                continue
+            g = rg[1]
+            ev = _inspects_kind(ctx, g)
+            if ev:
+                out.append((f, n, g, None, ev))
+                continue
+            # g is a closure of a registration wrapper: what it calls is bound
+            # per registration
+            fac = g.parent
+            if fac is None:
+                continue
+            called = [p_ for p_ in fac.all_params if any(
+                isinstance(x, ast.Call) and isinstance(x.func, ast.Name)
+                and x.func.id == p_ for x in ast.walk(g.node))]
+            # is the application guarded by a parameter of the factory?
+            guard = None
+            for x in ast.walk(fac.node):
+                if isinstance(x, (ast.IfExp, ast.If)) and isinstance(
+                        x.test, ast.Name) and x.test.id in fac.all_params \
+                        and any(y is n for y in ast.walk(x)):
+                    guard = x.test.id
+            defaults = {}
+            fa = fac.node.args
+            pos = fa.posonlyargs + fa.args
+            for prm, dv in zip(pos[len(pos) - len(fa.defaults):], fa.defaults):
+                defaults[prm.arg] = dv
+            for reg in ctx.registry.all():
+                if not reg.has(fac.name):
+                    continue
+                bound = dict([c for c in reg.chain if c[0] == fac.name][0][2])
+                if guard is not None:
+                    gv = bound.get(guard)
+                    if not (is_const(gv) and gv.v):
+                        continue
+                for p_ in called:
+                    funcs = _funcs_of(bound[p_]) if p_ in bound else []
+                    if p_ not in bound and isinstance(
+                            defaults.get(p_), ast.Lambda):
+                        funcs = [l for l in fac.lambdas
+                                 if l.node is defaults[p_]]
+                    for h in funcs:
+                        ev = _inspects_kind(ctx, h)
+                        if ev:
+                            out.append((f, n, g, reg, '%s `%s` - %s' % (
+                                p_, h.qualname, ev)))
+                            break
+    return out
+
+
 def rule_memo(ctx, prop, rule, regs, roots=None):
     """No memoised function reachable from `regs` (or the given root functions)
     conflates values of different kinds."""
@@ -212,7 +333,30 @@ def rule_memo(ctx, prop, rule, regs, roots=None):
             rr.ok('memoised %s does not depend on the kind of its arguments '
                   '(or uses a typed cache)' % g.qualname,
                   '%s:%d' % (g.module.rel, g.lineno))
-    if not memo:
+    # hand-written value-keyed memos (`memo[vals]`) applied to kind-dependent
+    # functions, for the registrations in scope
+    keys = {r.key for r in regs}
+    seen = set()
+    for f, n, g, reg, ev in handmade_memo_hazards(ctx):
+        if reg is not None and reg.key not in keys:
+            continue
+        if reg is None and f.fq not in reach and g.fq not in reach:
+            continue
+        k = g.fq
+        if k in seen:
+            continue
+        seen.add(k)
+        rr.instances += 1
+        rr.fail(key_of(f, 'hand-written memo on kind-dependent %s' % g.name),
+                '%s memoises %s in a dict keyed by the raw argument values '
+                '(`%s`), but for %s the result depends on whether a value is a '
+                'logical or a number (%s): 1, 1.0 and TRUE hash and compare '
+                'equal, so within one evaluation the first of them decides the '
+                'result of the others' % (
+                    f.qualname, g.qualname, norm_src_(n)[:50],
+                    reg.key if reg is not None else 'its callers', ev),
+                file=f.module.rel, function=f.qualname, line=n.lineno)
+    if not memo and not seen:
         rr.ok('no memoised function reachable', '', nontrivial=False)
     return rr
 
